@@ -42,7 +42,7 @@ def ENCODED():
 def cases(tier, seed):
     # top-level split on the five flags (exhaustive: 2^5 sub-cases) for parallelism; ellipsoid verdicts and counts stay symbolic
     out = ["combos/" + "".join(bits) for bits in itertools.product("01", repeat=5)]
-    out += ["route/default", "route/custom-season", "route/custom-week", "best/k"]
+    out += ["route/default", "route/custom-season", "route/custom-week", "best/k", "best/refit"]
     return out
 
 
@@ -169,6 +169,8 @@ def run_case(case: Case, name: str):
         return run_combos_case(case, arg)
     if kind == "route":
         return run_route(case, arg)
+    if arg == "refit":
+        return run_best_refit(case)
     return run_best(case)
 
 
@@ -316,6 +318,68 @@ def replay_best(inp):
 
 
 REPLAY = {"combos": replay_combos, "route": replay_route, "best": replay_best}
+
+
+# selection through the real _combination_selection_criteria / _get_error_metrics / selection_criteria on stand-in
+# components; the SAME model object selects for a first and then for a second baseline
+REFIT_DATA = {  # per component: (weighted SSE, N) ; "split pays": the weekday/weekend pair fits far better than the unsplit model
+    "split pays": {"fw-su_sh_wi": (400.0, 100), "wd-su_sh_wi": (20.0, 70), "we-su_sh_wi": (10.0, 30)},
+    "split does not pay": {"fw-su_sh_wi": (100.0, 100), "wd-su_sh_wi": (70.0, 70), "we-su_sh_wi": (30.0, 30)},
+}
+
+
+def _select(m, which):
+    import types as _t
+    comps = {}
+    for name, (wsse, n) in REFIT_DATA[which].items():
+        r = np.full(n, (wsse / n) ** 0.5)
+        comps[name] = _t.SimpleNamespace(wSSE=wsse, N=n, resid=r, obs=np.full(n, 10.0) + np.arange(n) % 7, TSS=1000.0 * n / 100)
+    m.fit_components = comps
+    m.combinations = ["fw-su_sh_wi", "wd-su_sh_wi__we-su_sh_wi"]
+    m.wRMSE_base = m._get_error_metrics("fw-su_sh_wi")[0]
+    best = m._best_combination(print_out=False)
+    return best, [float(m._combination_selection_criteria(c)) for c in m.combinations], float(m._get_error_metrics(best)[0])
+
+
+def refit_selection(first, second):
+    m = dm.DailyModel()
+    _select(m, first)
+    got = _select(m, second)
+    want = _select(dm.DailyModel(), second)
+    pr = []
+    if got != want:
+        pr.append(f"after selecting for '{first}', the same object selects {got[0]} (criteria {got[1]}, wRMSE {got[2]}) for '{second}'; an object that only saw '{second}' selects {want[0]} (criteria {want[1]}, wRMSE {want[2]})")
+    crit = want[1]
+    if want[0] != m.combinations[int(np.argmin(crit))]:
+        pr.append(f"selected {want[0]} is not the lowest criterion {crit}")
+    return pr
+
+
+def replay_best_refit(inp):
+    pr = refit_selection(inp["first"], inp["second"])
+    return bool(pr), "; ".join(pr)
+
+
+REPLAY["best-refit"] = replay_best_refit
+
+
+def run_best_refit(case):
+    case.inputs = []
+
+    def run():
+        first, second = F.choose("first", list(REFIT_DATA)), F.choose("second", list(REFIT_DATA))
+        return first, second, refit_selection(first, second)
+
+    paths = case.explore(run)
+    for p in paths:
+        if p.outcome != "ret":
+            case.rep["harness_errors"].append(f"refit selection raised {p.value!r}")
+            continue
+        first, second, pr = p.value
+        case.prove(p, not pr, "a model object that selected a split before selects, for a new baseline, the lowest-criterion candidate of the NEW components",
+                   replay=("best-refit", (lambda a, b: lambda mdl: dict(first=a, second=b))(first, second)))
+        case.regime("second selection on one model object with other components", first != second)
+    case.sample(dict(entry="_best_combination / _combination_selection_criteria / _get_error_metrics", histories=len(paths)))
 
 
 def run_best(case):
